@@ -118,6 +118,7 @@ impl Truth<'_> {
         A::parse_stream(&mut state, &mut lexer)
             .map_err(|e| self.emit(e))
             .and_then(|mut ast| {
+                crate::passes::sanity_check::limit_block_nesting(&ast, self.ctx.emitter)?;
                 crate::passes::resolution::fill_missing_node_ids(&mut ast, &self.ctx.unused_node_ids)?;
                 crate::passes::resolution::assign_res_ids(&mut ast, &mut self.ctx)?;
                 crate::passes::resolution::assign_loop_ids(&mut ast, &mut self.ctx)?;
